@@ -86,6 +86,9 @@ struct Inner {
     evaluations: u64,
     distinct: HashSet<u64>,
     samples: Vec<Value>,
+    /// canonical forms of the first few non-trivial cases; used as `samples` when the
+    /// monitor recorded none explicitly
+    auto_samples: Vec<Value>,
     counters: BTreeMap<String, u64>,
     violations: BTreeMap<String, (u64, Vec<Value>)>,
     inconclusive: BTreeMap<String, u64>,
@@ -131,8 +134,12 @@ impl Report {
     /// The case with this canonical form passed the property's non-triviality rule.
     pub fn nontrivial(&self, canonical: &[u8]) {
         let h = crate::fnv(canonical);
+        let max = self.max_samples;
         self.with(|i| {
-            i.distinct.insert(h);
+            if i.distinct.insert(h) && i.auto_samples.len() < max {
+                let text = String::from_utf8_lossy(&canonical[..canonical.len().min(400)]).to_string();
+                i.auto_samples.push(json!({"nontrivial_case_canonical_form": text}));
+            }
         });
     }
     pub fn nontrivial_str(&self, canonical: &str) {
@@ -235,7 +242,7 @@ impl Report {
                 "evaluations": i.evaluations,
                 "distinct_nontrivial": i.distinct.len(),
                 "rule": self.rule,
-                "samples": i.samples,
+                "samples": if i.samples.is_empty() { &i.auto_samples } else { &i.samples },
                 "counters": i.counters,
                 "violations": violations,
                 "inconclusive": i.inconclusive,
